@@ -140,6 +140,7 @@ class wrapper(dictattr):
                 kw.update(kwargs)
                 f[_function] = f.function.function
             else:
+                f[_function] = copy(f.function) ## descend into a private copy: never rewire a wrapper the caller still holds
                 f = f.function
 
         super(wrapper, self).__init__(*args, **kw)
